@@ -15,10 +15,13 @@ from .. import lib_fm_loops as L
 
 # family -> (quick, thorough) number of programs
 PLAN = {
-    'unroll': (26, 420), 'unroll-exitcycle': (6, 60), 'unroll-loopvar': (6, 60), 'split': (10, 160),
-    'fusion': (10, 170), 'fusion-mismatch': (10, 170), 'fusion-collapse': (6, 100),
-    'fission': (10, 170), 'fission-promote': (8, 120),
-    'interchange': (10, 170), 'interchange-project': (6, 100), 'block': (8, 120),
+    # (a) unrolling
+    'unroll': (22, 400), 'unroll-select': (5, 70), 'unroll-negpow': (4, 50), 'unroll-exitcycle': (4, 50),
+    'unroll-loopvar': (4, 50), 'unroll-print': (4, 50),
+    # (b) legal by construction
+    'fusion': (9, 160), 'fusion-mismatch': (9, 160), 'fusion-collapse': (5, 90),
+    'fission': (9, 160), 'fission-autopromote': (5, 80), 'fission-promote': (8, 120),
+    'interchange': (9, 160), 'interchange-project': (6, 90), 'split': (8, 140), 'block': (7, 110),
 }
 
 
